@@ -39,6 +39,10 @@ func runC11(c *Case) {
 	nRealms := 2 + r.IntN(2)
 	perRealm := 3 + r.IntN(2)
 	base := model.RealmSpec{Strict: false, AllowDisclose: chance(r, 50), MetaKill: true}
+	if chance(r, 40) {
+		// the same event-history topics in every realm (static ones and the one made from the template)
+		base.History = randomHistory(r)
+	}
 	useTemplate := chance(r, 50)
 	var realms []RealmSetup
 	names := []string{}
@@ -123,7 +127,7 @@ func runC11(c *Case) {
 				exec(model.Op{Kind: model.OpUnsubscribe, P: p, Req: g.nextReq(p), Target: model.Ref{Kind: "sub", Topic: h.uri, Match: h.pol}})
 			case x < 38:
 				args, kw := g.payload()
-				exec(model.Op{Kind: model.OpPublish, P: p, Req: g.nextReq(p), URI: pick(r, poolTopics), Opts: genPublishOpts(g, perRealm, base.AllowDisclose), Args: args, Kw: kw})
+				exec(model.Op{Kind: model.OpPublish, P: p, Req: g.nextReq(p), URI: pick(r, poolTopics), Opts: withPPT(g, genPublishOpts(g, perRealm, base.AllowDisclose), base.AllowDisclose), Args: args, Kw: kw})
 			case x < 50:
 				uri, m := g.topicAndMatch(5)
 				if m == "" || m == "exact" {
